@@ -50,6 +50,11 @@ def cases(tier, seed):
     for j in range(n):
         out.append({"kind": ["self", "aba", "site"][j % 3], "s": int(rng.integers(1 << 30)), "cell": planted.CELL_CLASSES[(j // 3) % len(planted.CELL_CLASSES)],
                     "pattern": patterns.CLASSES[(j // 2) % len(patterns.CLASSES)], "atol": [0.05, 0.2, 0.01][(j // 5) % 3]})
+    # exact copies (identical or turned by exactly 180 degrees) far from the origin: the atoms put in by the first substitution
+    # differ from an exact copy by rounding (1e-14 A) only - the way back aligns axes that are parallel or antiparallel up to noise
+    for j in range(60 if tier == "quick" else 3000):
+        out.append({"kind": "aba", "exact": True, "s": int(rng.integers(1 << 30)), "cell": ["ortho_big", "tri_big"][j % 2],
+                    "pattern": ["asym4", "chiral4", "asym6", "twofold", "pair_hetero", "collinear3"][j % 6], "atol": 0.05})
     reps = 1 if tier == "quick" else 8
     for r in range(reps):
         for c in real_cases():
@@ -190,13 +195,15 @@ def check_aba(ctx, st, S, A, B, patA, patB, atol, seed, w, tol, fraction=1.0, sa
     return len(o1["found"])
 
 
-def substituted(pat, rng, single=False):
+def substituted(pat, rng, single=False, first=False):
     """B = A with one (or, for a single-atom pattern, the) element substituted, same coordinates"""
     els = list(pat["elements"])
     cands = [i for i, e in enumerate(els) if e in SUBST]
     if not cands:
         return None
     j = cands[int(rng.integers(len(cands)))]
+    if first:
+        j = cands[0]        # the first substitutable atom (atom 0, the anchor of the alignment, for most patterns)
     els[j] = SUBST[els[j]]
     return {"elements": els, "positions": np.array(pat["positions"], float).copy(), "cls": pat.get("cls"), "continuous_symmetry": pat.get("continuous_symmetry")}
 
@@ -219,8 +226,11 @@ def run_case(case, ctx):
         atol = case["atol"]
         pat = patterns.make(rng, case["pattern"] if kind != "site" else "single")
         k = 1 if case["cell"].endswith("minimal") else int(rng.integers(1, 5))
+        if case.get("exact"):
+            k = 6
         built = planted.build(rng, pat, case["cell"], atol, n_copies=k, crossings=[int(x) for x in rng.integers(0, 4, k)],
-                              poses=[planted.POSES[int(x)] for x in rng.integers(0, len(planted.POSES), k)], n_bystanders=int(rng.integers(1, 7)),
+                              poses=[planted.POSES[int(x)] for x in rng.integers(0, len(planted.POSES), k)] if not case.get("exact") else
+                              [["axis_antiparallel_exact", "identity_exact"][int(x)] for x in rng.integers(0, 2, k)], n_bystanders=int(rng.integers(1, 7)),
                               n_distractors=0 if kind != "self" else int(rng.integers(0, 2)), min_sep=1.3,
                               decoys=["mirror"] if (pat.get("chiral") and case["s"] % 2 == 0) else [])
         S = built["atoms"]
@@ -240,7 +250,9 @@ def run_case(case, ctx):
             n = check_noop(ctx, st, S, patterns.to_atoms(pat), atol, case["s"], w, variant=(case["s"] // 3) % 3,
                            group=built["planted"][0] if built["planted"] else None)
         else:
-            B = substituted(pat, rng)
+            B = substituted(pat, rng, first=bool(case.get("exact")))
+            if case.get("exact"):
+                st.count("two_step_histories_on_exact_copies_far_from_the_origin")
             if B is None:
                 st.count("not_judged")
                 return
@@ -279,6 +291,8 @@ def requirements(stats, tier):
     need = []
     if stats.get("self_replacements") < (100 if tier == "quick" else 12000) or stats.get("restorations_checked") < (100 if tier == "quick" else 12000):
         need.append("self replacements %d, restorations %d" % (stats.get("self_replacements"), stats.get("restorations_checked")))
+    if stats.get("two_step_histories_on_exact_copies_far_from_the_origin") < (30 if tier == "quick" else 1500):
+        need.append("two-step histories on exact copies far from the origin: %d" % stats.get("two_step_histories_on_exact_copies_far_from_the_origin"))
     if stats.get("structures_with_a_mirror_image_site") < (10 if tier == "quick" else 1000):
         need.append("structures with a mirror-image site of a handed pattern: %d" % stats.get("structures_with_a_mirror_image_site"))
     if stats.get("partial_two_step_histories") < (20 if tier == "quick" else 2000):
